@@ -245,6 +245,27 @@ def handle (s : Sexp) : D String :=
       | .ok (t', st) =>
         let fs := st.futures.map fun (n, a, p, sh) => s!"({Sexp.quote n} {a} {if p then "true" else "false"} {sh})"
         pure s!"ok {showRTerm t'} ({" ".intercalate fs}) {st.maxShift}"
+  | .list [.atom "trrec", fixed, .list kinds, .list ranks, .list roots] => do
+      -- (trrec fixed (kind...) (rank...) (root...)) : BodyFormula.translate on a graph of pairs; kind ::= leaf | (alias c) | (op r a b) | (op3 a b c) | (early c)
+      let n := kinds.length
+      if n = 0 then pure "ok () 0" else
+      let fin : Sexp → D (Fin n) := fun x => do
+        let c ← decNat x
+        if h : c < n then pure ⟨c, h⟩ else dfail "pair index" x
+      let ks ← kinds.mapM fun k => match k with
+        | .atom "leaf" => pure (TR.Kind.leaf : TR.Kind n)
+        | .list [.atom "alias", c] => do pure (TR.Kind.alias (← fin c))
+        | .list [.atom "op", r, a, b] => do pure (TR.Kind.op (← decBool r) (← fin a) (← fin b))
+        | .list [.atom "op3", a, b, c] => do pure (TR.Kind.op3 (← fin a) (← fin b) (← fin c))
+        | .list [.atom "early", c] => do pure (TR.Kind.early (← fin c))
+        | x => dfail "kind" x
+      let rs ← ranks.mapM decNat
+      let roots' ← roots.mapM fin
+      let G : TR.Graph n := { kind := fun i => ks.getD i.val .leaf, rank := fun i => rs.getD i.val 0 }
+      if h : G.okB = true then
+        let s := TR.trAll G (TR.Graph.okB_ok G h) (← decBool fixed) roots' { set := fun _ => false }
+        pure s!"ok ({" ".intercalate (s.log.map toString)}) {if s.err then 1 else 0}"
+      else pure "ERR not-ok"
   | .list (.atom "addtimestmt" :: occs) => do
       -- (addtimestmt (rf ff fp <term>) ...) : the atoms of a statement rewritten in order, one bookkeeping state
       let os ← occs.mapM fun o => match o with
